@@ -93,6 +93,16 @@ def env_term(mod):
     return s + "ARec [])"
 
 
+BIG_ENUM = """#[diplomat::bridge]
+mod ffi {
+    pub enum Flag { None = 0, Low = 1, High = 0x8000_0000 }
+    #[diplomat::opaque]
+    pub struct Op(pub u8);
+    impl Op { pub fn high() -> Flag { Flag::High } }
+}
+"""
+
+
 def check(ctx, replay=None):
     build_harness()
     tablegen.main()
@@ -174,6 +184,18 @@ def check(ctx, replay=None):
             if bi == 0:
                 k = list(P.natives)[5] if len(P.natives) > 5 else None
                 samples.append({"backend": backend, "symbol": k, "declared": P.natives.get(k)})
+    # an enum whose discriminants do not fit a signed 32-bit integer: rustc and C make it `unsigned int`; a Dart declaration of
+    # ffi.Int32 for it has the wrong signedness (every High arrives negative). The backend may also refuse the enum.
+    epath = os.path.join(d, "bigenum.rs")
+    open(epath, "w").write(BIG_ENUM)
+    q = e2e.run_tool("dart", epath, os.path.join(d, "out_bigenum"), config=["lib_name=somelib"])
+    nfun += 1
+    if q.returncode == 0:
+        txt = open(os.path.join(d, "out_bigenum", "Op.g.dart")).read()
+        m = re.search(r"@ffi\.Native<(ffi\.\w+) Function\(\)>\([^)]*symbol: 'Op_high'", txt)
+        if m and m.group(1) == "ffi.Int32":
+            violate("direct:dart-enum-range", {"lib_rs": BIG_ENUM, "what": "enum Flag { None = 0, Low = 1, High = 0x8000_0000 } is a 4-byte *unsigned* type for rustc and C; Dart declares "
+                                               "`ffi.Int32 Function()` for Op_high: Flag::High (2147483648) arrives as -2147483648, which is no variant"})
     if skipped_panics:
         raise MachineryError(f"C07: diplomat-tool panicked on {len(skipped_panics)} generated bridge(s) ({skipped_panics}): nothing could be compared for them")
     fails = run_shards(PROP, HEADER, goals, per_shard=60) if goals else []
